@@ -530,6 +530,13 @@ class UDPTunnel(_Tunnel):
                     return
 
                 if self._reconnect_task is None:
+                    if self.communication_channel is None:
+                        # the tunnel was closed (eg. by `disconnect()`) while waiting
+                        # for the ACK - don't reconnect a tunnel nobody wants anymore
+                        raise CommunicationError(
+                            "Sending TunnellingRequest failed twice. Tunnel is closed.",
+                            True,
+                        )
                     self._tunnel_lost()
                 if self._reconnect_task is None:
                     # _tunnel_lost() sets self._reconnect_task when auto-reconnect is True
